@@ -254,6 +254,8 @@ def c14_product(version: int, keykind: int, nclients: int, nb: int, b1: int, b2:
         assume(form2 == 0 and not same_virt)
     if form2 == 0:
         assume(not same_virt)     # (an int mapping gets the same stubbed local port: would be a true duplicate)
+    if maxblob < 3 and (keykind >= 2 or nports == 2):
+        assume(pa == 65535)     # quick tier: the other boundary port is tried with one mapping and a generated key only
     pa = api.pick_from(pa, (1, 65535))
     if nclients >= 0 or keykind >= 2:
         assume(not via_tor)     # Tor.create_onion_service: the unauthenticated entry point, tried with generated / discarded keys
